@@ -345,6 +345,19 @@ example : ∃ out back : Tensor Nat,
     out.vals = [1, 4, 2, 5, 3, 6, 7, 10, 8, 11, 9, 12] := by
   refine ⟨_, _, rfl, rfl, rfl⟩
 
+/-- **`unroll_blocks`, every admissible shape, nothing assumed about success**: for an image of `D×R×C`
+    values, a window `fr×fc` that fits (the shapes `conv` accepts) and any strides, both slice operations return
+    and `⟨unroll(img), xs⟩ = ⟨img, roll(xs)⟩` for every delta of the unrolled length. -/
+theorem C02_unroll_closure_is_transpose_total [AddLaws S] [MulLaws S] [CommLaws S] (D R C sr sc fr fc : Nat) (img xs : List S)
+    (hfr : fr ≤ R) (hfc : fc ≤ C) (hfr1 : 1 ≤ fr) (hfc1 : 1 ≤ fc) (hD : 1 ≤ D)
+    (himg : img.length = D * R * C)
+    (hxs : xs.length = (((R - fr) / sr + 1) * ((C - fc) / sc + 1)) * (fr * fc) * D) :
+    ∃ U B : List S,
+      unrollOp C R D sr sc fr fc ((C - fc) / sc + 1) ((((R - fr) / sr + 1) * ((C - fc) / sc + 1)) * (fr * fc) * D) [img] = .ok U ∧
+      rollOp true D R C sr sc fr fc (((R - fr) / sr + 1) * ((C - fc) / sc + 1)) ((C - fc) / sc + 1) [xs] = .ok B ∧
+      dot U xs = dot img B :=
+  unroll_roll_slice_adjoint_total D R C sr sc fr fc img xs hfr hfc hfr1 hfc1 hD himg hxs
+
 end Corgi
 
 #print axioms Corgi.exHeap_shapeOK
@@ -357,3 +370,4 @@ end Corgi
 #print axioms Corgi.C02_unroll_closure_is_transpose
 #print axioms Corgi.C02_unroll_roll_same_index
 #print axioms Corgi.C02_expand_closure_is_transpose
+#print axioms Corgi.C02_unroll_closure_is_transpose_total
